@@ -61,6 +61,57 @@ func execSizesOp(op string) string {
 		}
 		return "ok readable"
 	}
+	if ws[0] == "walreopen" {
+		// walreopen <pre> s1 s2 …: like walbatch, in a tail that (pre=1) already holds an earlier commit; then Close and
+		// Open: recovery validates the last batch again — every acknowledged entry must still be there, identical
+		d := simfs.New()
+		d.Record = false
+		w, err := openWalOn(d, 32<<20, nil)
+		if err != nil {
+			return "open-err"
+		}
+		var logs []*raft.Log
+		next := uint64(1)
+		if ws[1] == "1" {
+			l := &raft.Log{Index: next, Term: 1, Type: raft.LogCommand, Data: fillPattern(100, 7)}
+			if err := w.StoreLogs([]*raft.Log{l}); err != nil {
+				w.Close()
+				return "pre-err"
+			}
+			logs = append(logs, l)
+			next++
+		}
+		var batch []*raft.Log
+		for i, x := range ws[2:] {
+			batch = append(batch, &raft.Log{Index: next, Term: 1, Type: raft.LogCommand, Data: fillPattern(int(atoiU(x)), byte(i+1))})
+			next++
+		}
+		if err := w.StoreLogs(batch); err != nil {
+			w.Close()
+			return "err"
+		}
+		logs = append(logs, batch...)
+		w.DeleteRange(^uint64(0), ^uint64(0))
+		w.Close()
+		w, err = openWalOn(d, 32<<20, nil)
+		if err != nil {
+			return "ok reopen-failed"
+		}
+		defer w.Close()
+		if la, _ := w.LastIndex(); la != next-1 {
+			return fmt.Sprintf("ok lost-after-reopen last=%d want=%d", la, next-1)
+		}
+		for _, l := range logs {
+			var back raft.Log
+			if err := w.GetLog(l.Index, &back); err != nil {
+				return fmt.Sprintf("ok unreadable-after-reopen idx=%d (%v)", l.Index, walClass(err))
+			}
+			if !bytes.Equal(back.Data, l.Data) {
+				return fmt.Sprintf("ok corrupted-after-reopen idx=%d", l.Index)
+			}
+		}
+		return "ok readable"
+	}
 	var sizesOfBatch []int
 	segSize, pre := 0, false
 	if ws[0] == "multi" {
@@ -167,6 +218,11 @@ func sizesMonitor(ops, impl []string) []Violation {
 				for _, x := range ws[1:] {
 					sz = append(sz, atoiU(x))
 				}
+			case "walreopen":
+				limit -= 40
+				for _, x := range ws[2:] {
+					sz = append(sz, atoiU(x))
+				}
 			case "multi":
 				for _, x := range ws[3:] {
 					sz = append(sz, atoiU(x))
@@ -261,6 +317,17 @@ func suiteSizes(seed uint64, tier string) *Report {
 	c.Ops = append(c.Ops, fmt.Sprintf("walbatch %d %d %d", 24*MiB, 24*MiB, 24*MiB))
 	c.Ops = append(c.Ops, fmt.Sprintf("walbatch 64 %d", 64*MiB-64))
 	shapes["walbatch"] = true
+	// batches on both sides of the 64 KiB read/commit buffers, as the first and as a later commit of the tail, through a restart
+	for _, pre := range []int{0, 1} {
+		for _, sz := range [][]int{{64*KiB - 200}, {64*KiB - 16}, {64 * KiB}, {64*KiB + 16}, {3 * 64 * KiB}, {70 * KiB, 10}, {10, 70 * KiB}, {30 * KiB, 30 * KiB, 30 * KiB}, {MiB + r.Intn(100)}} {
+			var ss []string
+			for _, n := range sz {
+				ss = append(ss, fmt.Sprint(n+r.Intn(8)))
+			}
+			c.Ops = append(c.Ops, fmt.Sprintf("walreopen %d %s", pre, strings.Join(ss, " ")))
+		}
+	}
+	shapes["walreopen"] = true
 	// the boundary itself is always exercised
 	c.Ops = append(c.Ops, fmt.Sprintf("big %d %d 1 2", 64*MiB+1, 4*KiB))
 	c.Impl = execSizes(c.Ops)
